@@ -96,6 +96,9 @@ class Parser:
         while self.peek()[1] == "|":
             self.nxt()
             xs.append(self.seq())
+        # ordered choice is associative: `(a | b) | c` and `a | (b | c)` are flattened to one list, so
+        # that redundant parentheses in grammar.pest do not change the generated term
+        xs = [y for x in xs for y in (x[1] if x[0] == "alt" else [x])]
         return xs[0] if len(xs) == 1 else ("alt", xs)
 
     def seq(self):
@@ -103,6 +106,8 @@ class Parser:
         while self.peek()[1] == "~":
             self.nxt()
             xs.append(self.prefix())
+        # sequence is associative as well (same input consumed, same pairs in the same order)
+        xs = [y for x in xs for y in (x[1] if x[0] == "seq" else [x])]
         return xs[0] if len(xs) == 1 else ("seq", xs)
 
     def prefix(self):
@@ -293,10 +298,15 @@ def main():
         state[n] = 2
         topo.append(n)
 
-    for n in order:
+    # the order of the DEFINITIONS in grammar.pest is immaterial to pest (apart from the order in
+    # which error messages list the expected rules): constructors and definitions are emitted in a
+    # canonical order — the entry rule first, then alphabetical — so that moving a definition in
+    # the file leaves the generated module unchanged
+    canon = [ENTRY] + sorted(n for n in order if n != ENTRY)
+    for n in canon:
         visit(n, [])
 
-    named = [n for n in order if rules[n][0] != "_"]
+    named = [n for n in canon if rules[n][0] != "_"]
     L = []
     L.append("/-")
     L.append("GENERATED by translators/pest2lean.py from opening-hours-syntax/src/grammar.pest — do not edit.")
